@@ -105,6 +105,28 @@ VARIANTS = [
         {"file": CIRC, "old": "            fwd_injections.track_seen(message.packet_id)\n", "new": ""},
         {"file": CIRC, "old": "            if message.name == \"PacketAck\":\n                if not self._rewrite_packet_ack",
          "new": "            fwd_injections.track_seen(message.packet_id)\n            if message.name == \"PacketAck\":\n                if not self._rewrite_packet_ack"}]},
+    # ------------------------------------------------------------------ helpers taking the deque as an argument
+    {"name": "P R2/R3 forward walk moved into a module-level helper", "expect": "silent", "edits": [
+        {"file": CIRC, "old": "        new_id = orig_id + self._injection_base\n        for packet_id in self.injections:\n"
+                              "            if new_id < packet_id and new_id not in self.injections:\n                break\n            new_id += 1\n",
+         "new": "        new_id = _walk_forward(self.injections, orig_id + self._injection_base)\n"},
+        {"file": CIRC, "old": "class InjectionTracker:\n",
+         "new": "def _walk_forward(tracked, first_id):\n    cur = first_id\n    for inj in tracked:\n        if cur < inj and cur not in tracked:\n"
+                "            break\n        cur += 1\n    return cur\n\n\nclass InjectionTracker:\n"}]},
+    {"name": "R2 helper walks newest-first but stops on a larger element", "expect": "C04.R2", "edits": [
+        {"file": CIRC, "old": "        new_id = orig_id + self._injection_base\n        for packet_id in self.injections:\n"
+                              "            if new_id < packet_id and new_id not in self.injections:\n                break\n            new_id += 1\n",
+         "new": "        new_id = _walk_forward(self.injections, orig_id + self._injection_base)\n"},
+        {"file": CIRC, "old": "class InjectionTracker:\n",
+         "new": "def _walk_forward(tracked, first_id):\n    cur = first_id\n    for inj in reversed(tracked):\n        if cur < inj and cur not in tracked:\n"
+                "            break\n        cur += 1\n    return cur\n\n\nclass InjectionTracker:\n"}]},
+    {"name": "R3 helper-based forward walk called without the carry", "expect": "C04.R3", "edits": [
+        {"file": CIRC, "old": "        new_id = orig_id + self._injection_base\n        for packet_id in self.injections:\n"
+                              "            if new_id < packet_id and new_id not in self.injections:\n                break\n            new_id += 1\n",
+         "new": "        new_id = _walk_forward(self.injections, orig_id)\n"},
+        {"file": CIRC, "old": "class InjectionTracker:\n",
+         "new": "def _walk_forward(tracked, first_id):\n    cur = first_id\n    for inj in tracked:\n        if cur < inj and cur not in tracked:\n"
+                "            break\n        cur += 1\n    return cur\n\n\nclass InjectionTracker:\n"}]},
     # ------------------------------------------------------------------ documented limits
     {"name": "X forward shift boundary < -> <= (value-level)", "file": CIRC, "expect": "miss",
      "old": "if new_id < packet_id and new_id not in self.injections:", "new": "if new_id <= packet_id and new_id not in self.injections:"},
